@@ -444,4 +444,50 @@ pub struct ServerPool {''',
 
 /// Wrapper for the bb8 connection pool.
 pub struct ServerPool {'''),
+    # ------------------------------------------------------------------ C18
+    dict(id="c18-ok-without-disconnect", prop="C18", file="src/client.rs", expect="C18-R1",
+         what="Terminate in the idle loop returns without disconnect",
+         old='''                debug!("Client disconnecting");
+
+                self.stats.disconnect();
+
+                return Ok(());''', new='''                debug!("Client disconnecting");
+
+                return Ok(());'''),
+    dict(id="c18-total-reset", prop="C18", file="src/stats/address.rs", expect="C18-R4",
+         what="a total is reset together with the per-period counters",
+         old='''        self.current.errors.store(0, Ordering::Relaxed);
+    }''', new='''        self.current.errors.store(0, Ordering::Relaxed);
+        self.total.errors.store(0, Ordering::Relaxed);
+    }'''),
+    dict(id="c18-drop-no-disconnect", prop="C18", file="src/server.rs", expect="C18-R2",
+         what="Server::drop no longer removes its stats entry",
+         old='''        // Update statistics
+        self.stats.disconnect();
+
+        let mut bytes = BytesMut::with_capacity(5);''', new='''        let mut bytes = BytesMut::with_capacity(5);'''),
+    dict(id="c18-forget-without-idle", prop="C18", file="src/client.rs", expect="C18-R3",
+         what="server not marked idle on release",
+         old='''            server.stats().idle();
+            self.connected_to_server = false;''', new='''            self.connected_to_server = false;'''),
+    dict(id="c18-sync-not-counted", prop="C18", file="src/client.rs", expect="C18-R5",
+         what="Sync arm releases without counting the transaction on the server",
+         old='''                        self.buffer.clear();
+
+                        if !server.in_transaction() {
+                            self.stats.transaction();
+                            server
+                                .stats()
+                                .transaction(self.server_parameters.get_application_name());
+''', new='''                        self.buffer.clear();
+
+                        if !server.in_transaction() {
+                            self.stats.transaction();
+'''),
+    dict(id="c18-failed-checkout-stays-waiting", prop="C18", file="src/client.rs", expect="C18-R3",
+         what="failed checkout leaves the client waiting",
+         old='''                    // protocol buffer
+                    self.stats.idle();
+''', new='''                    // protocol buffer
+'''),
 ]
